@@ -226,6 +226,9 @@ class OpCtx:
         self.tpos = 0
         self.steps = 0
         self.rw_steps = 0
+        self.touched_cache = None
+        self.yielded = False
+        self.cache_writes = []
         self.cap_factor = max(1, op.get('n', 1)) if op.get('k') == 'bulk' else 1
         self.injected = []            # exception instances injected into this op
         self.inflight = []            # [(content, mtime)] versions the file took while in flight
@@ -552,8 +555,11 @@ class World:
                 ctx.pkl_written = True
         elif pclass == 'src' and kind.startswith('open'):
             ctx.src_opened = True
-        if kind == 'remove':
-            self._check_remove(ctx, path, pclass)
+        if kind in ('remove', 'rmtree'):
+            self._check_remove(ctx, path, pclass, tree=(kind == 'rmtree'))
+        if pclass in ('pkl', 'ctmp', 'lock', 'cdir') and kind in ('write', 'mkdir', 'replace', 'remove', 'utime', 'open:w',
+                                                                    'open:a', 'open:x', 'rmtree'):
+            ctx.cache_writes.append(kind)
         cfg = self.cfg
         size = info.get('size', 0)
 
@@ -584,6 +590,7 @@ class World:
             choices = self._choices(pid)
             if choices:
                 self.count('yield')
+                ctx.yielded = True
                 self._to_driver(proc, ('yield', choices[(d - 1) % len(choices)]))
                 if proc.dead:
                     raise SimCrash()
@@ -623,8 +630,24 @@ class World:
             if n is not None and not n.is_dir:
                 ctx.pre_mtimes.append(n.mtime)
 
-    def _check_remove(self, ctx, path, pclass):
+    def _check_remove(self, ctx, path, pclass, tree=False):
         """Maintenance oracle: a process may only delete cache files unused for 30 days."""
+        if tree:
+            d = self.fs.h_node(path)
+            if d is not None and d.is_dir and pclass != 'src' and not ctx.injected:
+                stack = [d]
+                while stack:
+                    x = stack.pop()
+                    for name, c in x.children.items():
+                        if c.is_dir:
+                            stack.append(c)
+                        elif name.endswith('.pkl') and self.now - c.t_used < pc._CACHED_FILE_MAXIMUM_SURVIVAL - 1 \
+                                and _data_valid(c.data):
+                            self._violate(ctx, 'maintenance', 'remove-live:tree',
+                                          'a directory tree with entries used %.0f s ago is removed: %s'
+                                          % (self.now - c.t_used, os.path.basename(os.fspath(path))))
+                            return
+            return
         if pclass == 'src':
             self._violate(ctx, 'maintenance', 'remove-source', 'a parso process removed a source file %s' % path)
             return
@@ -759,6 +782,9 @@ class World:
                     kw['cache_path'] = os.fspath(self.cdir(c)) if op.get('strpath') else self.cdir(c)
             if mode in ('diff', 'cache+diff'):
                 kw['diff_cache'] = True
+            before = None
+            if mode == 'nocache':
+                before = {k: dict(v) for k, v in pc.parser_cache.items()}
             try:
                 m = g.parse(**kw)
             except SimCrash:
@@ -767,6 +793,16 @@ class World:
                 raise
             except BaseException as e:
                 return ('exc', e)
+            if before is not None:
+                after = {k: dict(v) for k, v in pc.parser_cache.items()}
+                if proc.ctx.yielded and self.shared:
+                    pass        # another thread of the same process ran meanwhile and may have cached things
+                elif after.keys() != before.keys() or any(
+                        after[k].keys() != before[k].keys() or any(after[k][p] is not before[k][p] for p in before[k])
+                        for k in before):
+                    proc.ctx.touched_cache = 'in-memory cache entries changed'
+                elif proc.ctx.cache_writes:
+                    proc.ctx.touched_cache = 'wrote under the cache directory: %s' % proc.ctx.cache_writes[:3]
             return ('ok', m)
         if k == 'repaircheck':
             # bounded recovery + repair: (new process) parse; (new process) parse again -> must be a disk hit
@@ -969,6 +1005,10 @@ class World:
                           '%s: %s at %s' % (name, str(e)[:200], site))
             return
         m = res[1]
+        if ctx.touched_cache:
+            self._violate(ctx, 'noncaching-parse-touched-cache', 'noncaching-parse-touched-cache',
+                          'a parse without cache=/diff_cache= %s' % ctx.touched_cache)
+            return
         try:
             sig, problems = tree_sig(m)
             code = m.get_code()
@@ -1161,6 +1201,13 @@ class World:
                 n = fs.h_node(os.path.join(os.fspath(self.cdir(op.get('c', 0))), 'PARSO-CACHE-LOCK'))
                 if n is not None:
                     n.atime = n.mtime = self.now - op['lock'] * DAY
+        elif k == 'sibling':
+            # another parso installation (other pickle version) shares the cache directory
+            base = pc._VERSION_TAG.rsplit('-', 1)[0]
+            d = os.path.join(os.fspath(self.cdir(op.get('c', 0))), '%s-%d' % (base, pc._PICKLE_VERSION + op.get('dv', -1)))
+            fs.h_mkdirs(d)
+            some = pickle.dumps(pc._NodeCacheItem('tree of the other installation', ['x\n'], self.now), pickle.HIGHEST_PROTOCOL)
+            fs.h_write(os.path.join(d, 'aaaa-bbbb.pkl'), some)
         elif k == 'rmlock':
             fs.h_remove(os.path.join(os.fspath(self.cdir(op.get('c', 0))), 'PARSO-CACHE-LOCK'))
         elif k == 'diskfull':
